@@ -162,7 +162,18 @@ class legacy_networkx:
 # calling the implementation
 # ----------------------------------------------------------------------------------------------
 
+DECOY = [None]      # a second graph over the same names that is asked every question first (see run_case)
+
+
 def call(f, *a, **kw):
+    d = DECOY[0]
+    if d is not None and getattr(f, '__self__', None) is not None and f.__self__ is not d:
+        # the same question goes to the decoy first: answers belong to the graph that is asked, never to the process
+        try:
+            getattr(d, f.__name__)(*[getattr(x, 'identifier', x) if not isinstance(x, (list, set)) else
+                                     type(x)(getattr(y, 'identifier', y) for y in x) for x in a], **kw)
+        except Exception:  # noqa: BLE001
+            pass
     try:
         r = f(*a, **kw)
     except Exception as e:  # noqa: BLE001 - the class name is the observation
@@ -278,6 +289,21 @@ class Lane(LaneBase):
             g = gen.build_dag(n, case['edges'], names=names, cls=ts_cls)
         hn, he = hxlist(names), hxedges(edges)
         lines, impl, oracle, tags = [], [], [], [f'kind={case["kind"]}', f'n={n}', f'm={len(edges)}']
+        DECOY[0] = None
+        if case['kind'] == 'dag' and case['seed'] % 5 == 2 and n >= 3:
+            # a decoy: the same nodes with every edge reversed (a different DAG with different separations), fully built
+            # BEFORE the first query and asked each question right before the graph under test
+            try:
+                decoy = type(g)() if ts_cls is None else None
+                if decoy is not None:
+                    for x in names:
+                        decoy.add_node(x)
+                    for a_, b_ in edges:
+                        decoy.add_edge(b_, a_)
+                    DECOY[0] = decoy
+                    tags.append('decoy-interleaved')
+            except Exception:  # noqa: BLE001
+                DECOY[0] = None
         if case['kind'] == 'dag' and n >= 3:
             others = lambda x, y: [z for z in names if z not in (getattr(x, 'identifier', x), getattr(y, 'identifier', y))][:1]
             oracle += gen.nodeform_agree(g, names, [
